@@ -98,9 +98,17 @@ static void check_request(IN_mr *in, zckRange *r) {
 
     /* the range index as a table (request order) */
     zckChunk *g_rx_src[VERIF_N + 1]; size_t g_rx_size[VERIF_N + 1]; unsigned g_rx_n = 0;
-    zckChunk *e = r->index.first;
+    zckChunk *e = r->index.first; size_t payload = 0;
     for(int j = 0; j < VERIF_N + 1; j++) {
-        if(e != NULL) { g_rx_src[j] = e->src; g_rx_size[j] = e->comp_length; g_rx_n = j + 1; e = e->next; }
+        if(e != NULL) {
+            g_rx_src[j] = e->src; g_rx_size[j] = e->comp_length; g_rx_n = j + 1;
+            /* interface to the response writer (C04/C05): an entry's start is the position of its
+             * chunk in the concatenated payload of the requested ranges, and it is not yet valid */
+            V_ASSERT(e->start == payload, "C10,C04.zck_get_missing_range.range_index_offsets_are_payload_positions");
+            V_ASSERT(e->valid == 0, "C10,C04.zck_get_missing_range.range_index_entries_start_unverified");
+            payload += e->comp_length;
+            e = e->next;
+        }
     }
     V_ASSERT(e == NULL, "C10.zck_get_missing_range.range_index_no_longer_than_chunk_table");
     if(e != NULL) return;
